@@ -116,6 +116,9 @@ def main(chk: lib.Check) -> int:
     chk.add_model("AStar/small", r, "all graphs x pairs x tie-breaks, shapes <= 2x3,3x2,1x3,3x1")
     r = lib.tlc_design("AStar", "AStar_3x3.cfg", tag="3")
     chk.add_model("AStar/3x3", r, "all 4096 graphs x 81 pairs x every tie-break")
+    r = lib.tlc_design("AStar", "AStar_live.cfg", tag="lv")
+    chk.add_model("AStar/live", r, "termination: the measure 1 + (cells not yet closed) strictly decreases on every iteration; under weak fairness of the loop every query is answered (found | raise)")
+    lib.tlc_expect_violation("AStar", "AStar_unfair.cfg", "Answered", tag="uf")
     if thorough:
         r = lib.tlc_design("AStar", "AStar_wide.cfg", tag="w")
         chk.add_model("AStar/wide", r, "1x4,4x1,2x4,4x2 exhaustive")
